@@ -762,6 +762,11 @@ func (g *FuncGen) computeNonEscaping() {
 				}
 			case *ssa.DebugRef:
 			case *ssa.Range:
+			case *ssa.Phi:
+				// merged with other values of the same variable: it escapes only if the merged value does
+				if !ok(x, depth+1) {
+					return false
+				}
 			case *ssa.MakeClosure:
 				// captured by a closure that only ever reads the variable: no call can change it
 				cfn, isFn := x.Fn.(*ssa.Function)
